@@ -842,3 +842,141 @@ def joinrows_ladder_random(rng, count, only_trailing=False):
                 continue
             yield f"JOINROWS {pstr(P)} A={codec.show_row_t(A)} B={codec.show_row_t(B)}"
             made += 1
+
+
+# ------------------------------------------------------------------ secondary seeding stage (SEQ, XCORR, FINDPEAKS, REFINE)
+def seq_exhaustive(tier):
+    """positionsToSequence = blur . vectorise on a small lattice, negative starts and ends before the last label"""
+    pts = range(0, 8)
+    maxn = 3 if tier == "quick" else 4
+    for pos in multisets(pts, maxn):
+        for res in (1, 2, 3):
+            for bl in (0, 1, 2):
+                for start in (-3, -1, 0, 2):
+                    for stop in ("none", 0, 3, 7, 11):
+                        yield f"SEQ res={res} blur={bl} start={start} stop={stop} POS={','.join(map(str, pos))}"
+    yield "SEQ res=0 blur=1 start=0 stop=none POS=1,2"
+    yield "SEQ res=1 blur=-1 start=0 stop=none POS=1,2"
+
+
+def seq_random(rng, count):
+    for _ in range(count):
+        res = rng.choice([1, 50, 100, 140, 1400])
+        scale = max(1, res // 3)
+        pos = [p * scale // 50 for p in rand_map(rng, rng.randrange(0, 60), rng.choice([50, 140, 900]))]
+        span = (pos[-1] if pos else 100 * scale)
+        start = rng.choice([0, -rng.randrange(1, span + 2), rng.randrange(-span // 3 - 1, span + 1)])
+        stop = rng.choice(["none", 0, rng.randrange(0, 2 * span + 1)])
+        yield f"SEQ res={res} blur={rng.choice([0, 1, 2, 4])} start={start} stop={stop} POS={','.join(map(str, pos))}"
+
+
+def xcorr_exhaustive(tier):
+    m = 6 if tier == "quick" else 8
+    for nr in range(0, m + 1):
+        for r in itertools.product("01", repeat=nr):
+            for nq in range(0, 4 if tier == "quick" else 5):
+                for q in itertools.product("01", repeat=nq):
+                    yield f"XCORR R={''.join(r)} Q={''.join(q)}"
+
+
+def xcorr_random(rng, count):
+    for _ in range(count):
+        nr, nq = rng.randrange(0, 400), rng.randrange(0, 120)
+        d = rng.choice([0.05, 0.2, 0.6])
+        yield (f"XCORR R={''.join('1' if rng.random() < d else '0' for _ in range(nr))} "
+               f"Q={''.join('1' if rng.random() < d else '0' for _ in range(nq))}")
+
+
+def findpeaks_exhaustive(tier):
+    """every small array over two alphabets: {0..3} for plateaus / edges / heights, and values around the
+    `0.05 * max` prominence boundary (max 20, 21, 40 against prominences 1 and 2)"""
+    n1 = 6 if tier == "quick" else 8
+    for n in range(0, n1 + 1):
+        for x in itertools.product((0, 1, 2, 3), repeat=n):
+            for thr in ("0", "1", "3/2", "3"):
+                yield f"FINDPEAKS thr={thr} X={','.join(map(str, x))}"
+    n2 = 5 if tier == "quick" else 6
+    for n in range(3, n2 + 1):
+        for x in itertools.product((0, 1, 2, 19, 20, 21, 40), repeat=n):
+            yield f"FINDPEAKS thr=1 X={','.join(map(str, x))}"
+
+
+def findpeaks_random(rng, count):
+    for _ in range(count):
+        n = rng.randrange(0, 300)
+        x, v = [], rng.randrange(0, 30)
+        for _ in range(n):
+            if rng.random() < 0.6:
+                v = max(0, v + rng.choice([-3, -1, -1, 0, 0, 1, 1, 2, 15, -15]))
+            x.append(v)
+        yield f"FINDPEAKS thr={rng.choice(['27', '15', '1', '0', '27/2', '5'])} X={','.join(map(str, x))}"
+
+
+def refine_random(rng, count):
+    """the real `InitialAlignment.refine` on reference/query pairs: exact copies (with `truth=`, the reference
+    coordinate of query coordinate 0 on the strand given), noisy copies, fragments (untrimmed positions, label
+    offset), primary peaks near / before the reference start (negative window start) / beyond the last label,
+    several resolution / blur / margin / threshold settings"""
+    for _ in range(count):
+        R = make_reference(rng, rng.randrange(20, 120), 9000, rng.choice([500, 2000, 2000]))
+        noisy = rng.random() < 0.35
+        Q, off, _ = make_query(rng, R, noisy)
+        sec = rng.choice(["100,4,16000,27", "100,4,16000,27", "100,4,16000,27", "50,2,8000,15", "140,1,3000,5",
+                          "100,0,16000,27/2", "100,4,0,3", "200,3,20000,1"])
+        res, bl, margin, thr = sec.split(",")
+        res, margin = int(res), int(margin)
+        tail = rng.choice([0, 0, rng.randrange(0, 9000)])
+        qlen = Q[-1] + 1 + tail
+        rev = rng.random() < 0.5
+        # on the reverse strand the molecule is given mirrored (its tail then leads); the reversed vector starts at
+        # the molecule's last label again, so the true diagonal is the same reference coordinate on both strands
+        qq = [qlen - 1 - q for q in reversed(Q)] if rev else Q
+        shift, pre = 0, []
+        if rng.random() < 0.2:      # a fragment: positions are not trimmed, labels before it are cut away
+            pre_off = rng.randrange(1000, 60000)
+            qq = [q + pre_off for q in qq]
+            qlen += pre_off
+            shift = rng.randrange(1, 9)
+        truth = off
+        if shift:
+            truth = None
+        c = rng.random()
+        if c < 0.6:
+            peak = off + rng.randrange(-1500, 1500)
+        elif c < 0.75:
+            peak = rng.randrange(-margin - 3000, margin // 2 + 1)        # window starts before the reference
+            truth = None
+        elif c < 0.9:
+            peak = R[-1] + rng.randrange(-qlen - 2000, margin + 5000)      # window runs past (or lies beyond) the last label
+            truth = None
+        else:
+            peak = rng.randrange(-30000, R[-1] + 40000)
+            truth = None
+        if rng.random() < 0.15:     # copy placed near the reference start: exact copy AND negative window start
+            k = rng.randrange(3, min(30, len(R) - 1))
+            Q = [p - R[0] for p in R[:k]]
+            qlen = Q[-1] + 1
+            qq, rev, shift, noisy = Q, False, 0, False
+            truth = R[0]
+            peak = R[0] + rng.randrange(-700, 700)
+        t = f" truth={truth}" if (truth is not None and not noisy) else ""
+        yield (f"REFINE sec={sec} rev={1 if rev else 0} peak={peak}{t} REF={mapstr(1, R[-1] + 1 + rng.randrange(0, 30000), 0, R)} "
+               f"QRY={mapstr(2, qlen, shift, qq)}")
+
+
+def refine_lattice(rng, count):
+    """dense small-scale cases (more than ten peaks pass `find_peaks`, ties at the cut, empty windows)"""
+    for _ in range(count):
+        res = rng.choice([1, 2, 5])
+        R = sorted(rng.sample(range(0, 400 * res), rng.randrange(1, 60)))
+        k = rng.randrange(1, 8)
+        i = rng.randrange(0, max(1, len(R) - k))
+        Q = [p - R[i] for p in R[i:i + k]]
+        if rng.random() < 0.4:
+            Q = sorted(set(max(0, q + rng.randrange(-2, 3) * res) for q in Q))
+            Q = [q - Q[0] for q in Q]
+        qlen = Q[-1] + 1 + rng.choice([0, 0, 3 * res])
+        sec = f"{res},{rng.choice([0, 1, 2])},{rng.choice([0, 10, 40, 400]) * res},{rng.choice(['1', '2', '3/2', '3'])}"
+        peak = rng.randrange(-60 * res, 460 * res)
+        yield (f"REFINE sec={sec} rev={rng.randrange(2)} peak={peak} REF={mapstr(1, R[-1] + 1 + rng.randrange(0, 50), 0, R)} "
+               f"QRY={mapstr(2, qlen, 0, Q)}")
